@@ -23,11 +23,12 @@ import (
 
 // Case is one replayable case.
 type Case struct {
-	Skel geomgen.Skel
-	Rot  int
-	Pair []int
-	Many int  `json:",omitempty"` // > 0: a geometry of the skeleton's kind with this many members (vertices for flat kinds)
-	Near bool `json:",omitempty"` // every member of >= 3 vertices gets a copy of its first vertex, X moved by one ulp, appended (an almost closed ring)
+	Skel  geomgen.Skel
+	Rot   int
+	Pair  []int
+	Many  int  `json:",omitempty"` // > 0: a geometry of the skeleton's kind with this many members (vertices for flat kinds)
+	NearN int  `json:",omitempty"` // with Near: the number of ulps (0 = 1)
+	Near  bool `json:",omitempty"` // every member of >= 3 vertices gets a copy of its first vertex, X moved by one ulp, appended (an almost closed ring)
 }
 
 func build(c Case) geom.Geom {
@@ -82,7 +83,15 @@ func build(c Case) geom.Geom {
 	if c.Near {
 		cl := func(p []geom.Point) []geom.Point {
 			if len(p) >= 3 {
-				return append(p, geom.Point{X: nearUlp(p[0].X), Y: p[0].Y})
+				x := nearUlp(p[0].X)
+				if c.NearN > 1 {
+					// (16, 32 and 2^20 ulps: values that agree in their upper 32 bits and in their lowest bits)
+					x = math.Float64frombits(math.Float64bits(p[0].X) + uint64(c.NearN))
+					if math.IsNaN(x) || math.IsInf(x, 0) {
+						x = math.Float64frombits(math.Float64bits(p[0].X) - uint64(c.NearN))
+					}
+				}
+				return append(p, geom.Point{X: x, Y: p[0].Y})
 			}
 			return p
 		}
@@ -336,7 +345,7 @@ func main() {
 		return
 	}
 	r := report.New("C17", tier, "model_checking")
-	r.Rule = "E1: every structure tree of the five WKT-encodable types with 1..3 members and 1..3(4) vertices per member x every rotation of 22 finite float64 patterns, also with every member of >= 3 vertices almost closed (first vertex repeated one ulp off) (full product for points, each pattern repeated on consecutive vertices, and every ordered pattern pair alternating between neighbouring vertices in the same ordinate): the text must be accepted by an independent recursive-descent parser of the OGC WKT grammar and parse to the same type, nesting and bit-identical coordinates; the bytes returned by Encode unchanged by later Encode calls (two- and three-call histories); geometries of 63..5000 members / vertices; MultiPoint, GeometryCollection and *Bounds must be rejected with an error. Non-trivial = geometries with >= 2 members."
+	r.Rule = "E1: every structure tree of the five WKT-encodable types with 1..3 members and 1..3(4) vertices per member x every rotation of 22 finite float64 patterns, also with every member of >= 3 vertices almost closed (first vertex repeated 1, 16, 32 and 2^20 ulps off) (full product for points, each pattern repeated on consecutive vertices, and every ordered pattern pair alternating between neighbouring vertices in the same ordinate): the text must be accepted by an independent recursive-descent parser of the OGC WKT grammar and parse to the same type, nesting and bit-identical coordinates; the bytes returned by Encode unchanged by later Encode calls (two- and three-call histories); geometries of 63..5000 members / vertices; MultiPoint, GeometryCollection and *Bounds must be rejected with an error. Non-trivial = geometries with >= 2 members."
 	cfg := geomgen.Config{MaxMembers: 3, Lens: []int{1, 2, 3}, FlatMax: 3, PolyRings: 2}
 	if tier == "thorough" {
 		cfg = geomgen.Config{MaxMembers: 3, Lens: []int{1, 2, 3, 4}, FlatMax: 5, PolyRings: 3}
@@ -405,6 +414,9 @@ func main() {
 		for rot := 0; rot < np; rot++ {
 			run(Case{Skel: s, Rot: rot})
 			run(Case{Skel: s, Rot: rot, Near: true})
+			for _, nn := range []int{16, 32, 1 << 20} {
+				run(Case{Skel: s, Rot: rot, Near: true, NearN: nn})
+			}
 		}
 		// repeated vertices: every pattern pair (a,b) on all vertices
 		for a := 0; a < np; a++ {
